@@ -33,9 +33,7 @@ PROPS["C15"] = {
                 "TestC15TorsionList": LIST(),
                 # thorough only: Go native fuzzing (mutation from honest / adversarial / hostile seeds, reference inside the
                 # target); hitting the time budget is a pass, its executions are not counted in the evidence numbers
-                "FuzzC15Verify": LIST(quick=None, configs=["default"], timeout=900,
-                                      args=["-test.fuzz=^FuzzC15Verify$", "-test.fuzztime=60s", "-test.parallel=8",
-                                            "-test.fuzzcachedir=fuzzcache-c15"]),
+                "FuzzC15Verify": FUZZ(90, configs=["default"]),
             },
         },
     ],
